@@ -906,7 +906,7 @@ class TermBuilder:
             rets = [callee.body[0]]
         else:
             rets = [n for n in _own_walk(node) if isinstance(n, ast.Return)]
-            if len(rets) != 1 or rets[0].value is None:
+            if not rets or len(rets) > 4 or any(r_.value is None for r_ in rets):
                 return None
             if any(isinstance(n, (ast.For, ast.While, ast.Try, ast.With)) for n in _own_walk(node)):
                 return None
@@ -944,11 +944,15 @@ class TermBuilder:
             if p not in bind:
                 return None
         sub.bindings = bind
-        r = rets[0]
         if isinstance(node, ast.Lambda):
             t = sub._term(node.body, ENTRY, {})
         else:
-            t = sub.term(r.value, r)
+            ts = [sub.term(r_.value, r_) for r_ in rets]
+            if len(ts) > 1 and all(x[0] == "tuple" and len(x[1]) == len(ts[0][1]) for x in ts):
+                # tuple results are joined slot by slot
+                t = ("tuple", tuple(phi(x[1][k] for x in ts) for k in range(len(ts[0][1]))))
+            else:
+                t = phi(ts)
         if contains(t, lambda s: s[0] in ("cyc",)):
             return None
         if recv is not None and recv != SELF:
